@@ -82,6 +82,8 @@ def san_for(kind, host_i):
         return (("IP Address", host),) if is_ip else (("DNS", host.lower()),)
     if kind == 1:       # matches only the alternative name (server_hostname / assert_hostname)
         return (("DNS", "alt.example"),)
+    if kind == 4:       # a wildcard that covers only a PREFIX of the host ('*.exa' vs 'good.example'): never a match
+        return (("DNS", "*." + host.split(".")[-1][:3].lower()),)
     if kind == 3:       # a dNSName spelled like the IP literal (and a wildcard variant): never a match for an IP host
         return (("DNS", host), ("DNS", "*." + host.split(".", 1)[-1])) if is_ip else (("DNS", "unrelated.example"),)
     return (("DNS", "unrelated.example"),)
@@ -104,7 +106,7 @@ def _lattice_body(idx):
 
 def _all_servers(topo, flavour_py, never_cn, cr, ah, fp, sh, ctxk, cak, host_i, retries_on, proxy_pin):
     for issuer in (0, 1, 2):
-        for sank in ((0, 1, 2, 3) if host_i in (2, 3) else (0, 1, 2)):
+        for sank in ((0, 1, 2, 3) if host_i in (2, 3) else (0, 1, 2, 4)):
             for proxy_issuer in ((0, 2) if topo in (2, 3) else (0,)):
                 if not _point(topo, flavour_py, never_cn, cr, ah, fp, sh, ctxk, issuer, cak, sank, host_i, retries_on,
                               proxy_issuer, proxy_pin):
